@@ -169,3 +169,33 @@ func verifC12GenerateID() {
 		t.Close()
 	}
 }
+
+// Emptying a topic does not touch its id generator: ids handed out after the Empty are still
+// strictly above every id handed out before it (same generator, same last id).
+func VerifC12_EmptyKeepsTheGenerator() {
+	verifrt.Atomic(func() {
+		verifC12Clock()
+		n := verifShellNSQD(verifOpts())
+		verifrt.StubNative("(*github.com/nsqio/nsq/nsqd.NSQD).Notify", verifNotifyNop)
+		t := NewTopic("t", n, func(*Topic) {})
+		f := t.idFactory
+		f.nodeID = 7
+		f.sequence = verifrt.Int64("sequence")
+		f.lastTimestamp = verifrt.Int64("lastTimestamp")
+		f.lastID = guid(verifrt.Int64("lastID"))
+		verifrt.Assume(f.sequence >= 0 && f.sequence <= 4095 && f.lastID >= 0)
+		before := f.lastID
+		verifC12Sleeps = 0
+		if verifrt.Symbolic() {
+			verifrt.Stub("time.Sleep", verifC12SleepStub)
+		}
+		t.Empty()
+		verifrt.Assert(t.idFactory == f && f.lastID == before, "empty-keeps-the-id-generator-and-its-last-id")
+		id := t.GenerateID()
+		verifrt.Assert(t.idFactory.lastID > before && id == t.idFactory.lastID.Hex(), "id-after-empty-is-above-every-id-before-it")
+		verifrt.Reach("generated-after-empty", true)
+		if !verifrt.Symbolic() {
+			t.Close()
+		}
+	})
+}
